@@ -20,6 +20,8 @@ fn main() {
         "w_pipe" => vh::w_pipe::main(rest),
         "w_origin" => vh::w_origin::main(rest),
         "w_strace" => vh::w_strace::main(rest),
+        "w_model" => vh::w_model::main(rest),
+        "w_chain" => vh::w_chain::main(rest),
         "w_halflock" => vh::w_halflock::main(rest),
         _ => {
             eprintln!("unknown workload {:?}", w);
